@@ -321,10 +321,6 @@ Proof.
   destruct (to_bool s); eauto; destruct (to_i64 s), (to_u64 s), (to_f64 s); cbn [obind]; eauto.
 Qed.
 
-Lemma vspan_inside : forall t v a e, conts_ok t -> vend t v = e -> v < a -> vend t a < e \/ (vend t a <= e /\ v < a) ->
-  vend t a <= e -> vspan t a < vspan t v \/ e <= v.
-Proof. intros. unfold vspan. rewrite H0. lia. Qed.
-
 Lemma step_total : forall dec dbg o t rec v, tape_wf t -> v < length t ->
   (forall a, a < length t -> vspan t a < vspan t v -> exists j, rec a = Ok j) ->
   exists j, ser_value_step dec dbg o t rec v = Ok j.
